@@ -69,6 +69,8 @@ pub enum ReadStep {
     WouldBlock,
     Eof,
     Err,
+    /// fail with this kind of I/O error
+    ErrKind(io::ErrorKind),
 }
 
 /// What a scripted `write()` does.
@@ -77,6 +79,8 @@ pub enum WriteStep {
     Accept(usize),
     WouldBlock,
     Err,
+    /// fail with this kind of I/O error
+    ErrKind(io::ErrorKind),
 }
 
 /// A transport whose every `read`/`write` follows a script; an exhausted script is `WouldBlock`.
@@ -93,6 +97,7 @@ impl io::Read for ScriptStream {
             None | Some(ReadStep::WouldBlock) => Err(io::ErrorKind::WouldBlock.into()),
             Some(ReadStep::Eof) => Ok(0),
             Some(ReadStep::Err) => Err(io::Error::new(io::ErrorKind::ConnectionReset, "scripted")),
+            Some(ReadStep::ErrKind(k)) => Err(io::Error::new(k, "scripted")),
             Some(ReadStep::Chunk(bs)) => {
                 let n = bs.len().min(buf.len());
                 buf[..n].copy_from_slice(&bs[..n]);
@@ -110,6 +115,7 @@ impl io::Write for ScriptStream {
         match self.writes.pop_front() {
             None | Some(WriteStep::WouldBlock) => Err(io::ErrorKind::WouldBlock.into()),
             Some(WriteStep::Err) => Err(io::Error::new(io::ErrorKind::BrokenPipe, "scripted")),
+            Some(WriteStep::ErrKind(k)) => Err(io::Error::new(k, "scripted")),
             Some(WriteStep::Accept(k)) => {
                 let n = k.min(buf.len());
                 self.written.extend_from_slice(&buf[..n]);
